@@ -9,7 +9,8 @@
 From Coq Require Import Permutation Sorted.
 From CC Require Import Base.Prelude Base.Scalar Model.Sort.
 From CC Require Import Proofs.SortProofs Proofs.PermProofs Proofs.IntKeyProofs
-  Proofs.RadixProofs Proofs.SortOpProofs Proofs.ApplyOpProofs Proofs.SortMultiBit.
+  Proofs.RadixProofs Proofs.SortOpProofs Proofs.ApplyOpProofs Proofs.SortMultiBit
+  Proofs.SortMultiBitCircuit.
 
 (* ---- plaintext Sort ---- *)
 (* the output key rows are in non-decreasing lexicographic order *)
@@ -106,9 +107,11 @@ Proof. exact intkey_monotone. Qed.
 (* For EVERY key width b >= 1 (odd widths start with the 1-bit chunk), every table height and
    every family of protocol permutations, the chunk passes of mpc_radix_sort.rs compose to the
    rank vector (inverse sorting permutation) of the stable sort by the whole key.
-   Partial in one respect only: Algorithm 11 enters through its specification [ms_spec]
-   (it returns the ranks of a chunk); the circuit formula [gen_multi_bit_sort] is checked
-   against that specification exhaustively for small chunks below, not for all sizes. *)
+   The _partial form is the general one: for every chunk-sorting function satisfying the
+   specification [ms_spec] (it returns the ranks of a chunk).  The model's formula
+   [gen_multi_bit_sort] is proved to return the ranks on all chunks of bits
+   (C18_gen_multi_bit_sort_ranks), which gives the full statement
+   C18_lsd_radix_is_stable_sort below. *)
 Theorem C18_lsd_radix_is_stable_sort_partial : forall ms, ms_spec ms -> forall pi_of b keys,
   (1 <= b)%nat -> Forall (fun r => length r = b) keys ->
   (forall i, is_perm (length keys) (pi_of i)) ->
@@ -128,6 +131,25 @@ Theorem C18_gen_multi_bit_sort_ranks : forall l k,
   Forall (fun r => length r = l /\ Forall (fun x => x = 0 \/ x = 1) r) k ->
   gen_multi_bit_sort k = inv_perm (sorting_permutation k).
 Proof. exact gen_multi_bit_sort_ranks. Qed.
+
+(* the arithmetic of the graph gen_multi_bit_sort_graph builds (xor mask, one-hot columns as a
+   product over the bit axis, cumulative sum over rows, exclusive cumulative sum over buckets
+   of the last row, sum over buckets of s * f, minus one: [alg11_circuit] in
+   Proofs/SortMultiBitCircuit.v, a node-by-node reading of mpc_radix_sort.rs:310-360 with [w]
+   the wrap-around of the UINT32 operations) IS the counting formula of the model, for every
+   chunk width, every height, and every wrap that is the identity on 0..n *)
+Theorem C18_alg11_circuit_is_counting_formula : forall (w : Z -> Z) l k,
+  (forall z, 0 <= z <= Z.of_nat (length k) -> w z = z) ->
+  Forall (fun r => length r = l /\ Forall (fun x => x = 0 \/ x = 1) r) k ->
+  alg11_circuit w l k = map Z.of_nat (gen_multi_bit_sort k).
+Proof. exact alg11_circuit_counts_gen. Qed.
+
+(* in particular in UINT32, for fewer than 2^32 rows, the circuit returns the ranks *)
+Theorem C18_alg11_circuit_ranks_u32 : forall l k,
+  Forall (fun r => length r = l /\ Forall (fun x => x = 0 \/ x = 1) r) k ->
+  Z.of_nat (length k) < 2 ^ 32 ->
+  alg11_circuit (fun z => z mod 2 ^ 32) l k = map Z.of_nat (inv_perm (sorting_permutation k)).
+Proof. exact alg11_circuit_ranks. Qed.
 
 (* hence the full statement: the schedule with the concrete formula plugged in *)
 Theorem C18_lsd_radix_is_stable_sort : C18_lsd_radix_is_stable_sort_full.
@@ -258,6 +280,8 @@ Print Assumptions C18_intkey_monotone.
 Print Assumptions C18_lsd_radix_is_stable_sort_partial.
 Print Assumptions C18_radix_sort_is_plaintext_sort_partial.
 Print Assumptions C18_gen_multi_bit_sort_ranks.
+Print Assumptions C18_alg11_circuit_is_counting_formula.
+Print Assumptions C18_alg11_circuit_ranks_u32.
 Print Assumptions C18_lsd_radix_is_stable_sort.
 Print Assumptions C18_radix_sort_is_plaintext_sort.
 Print Assumptions C18_radix_compose.
